@@ -1,3 +1,691 @@
--- stub: the driver of C20 is not built yet
 import WmModel.Basic
-def main : IO Unit := Wm.driverMain (fun _ => "bad-op")
+import WmModel.Decor
+open Wm Wm.Decor
+
+/-! Line-protocol driver of C20: `M <req>` = observation predicted by the model `WmModel/Decor.lean`,
+    `P <req> ## <obs>` = the property's statement evaluated on the implementation's observation
+    (written apart from the model functions: it never calls `publish`, `applyDelay`, `deliver`, `routerRun`). -/
+
+namespace C20
+
+def strHex (s : String) : String := hexEnc s.toUTF8.toList
+
+def hexStr? (h : String) : Option String := do
+  let bs ← hexDec h
+  String.fromUTF8? ⟨bs.toArray⟩
+
+def sepOr (xs : List String) (sep : String) : String :=
+  if xs.isEmpty then "-" else sep.intercalate xs
+
+def splitOr (s sep : String) : List String := if s = "-" then [] else s.splitOn sep
+
+def insertSorted (x : String) : List String → List String
+  | [] => [x]
+  | y :: r => if x < y then x :: y :: r else y :: insertSorted x r
+
+def sortStr (xs : List String) : List String := xs.foldr insertSorted []
+
+/-- sorted `key=count` lines of a list of keys -/
+def countLines (keys : List String) : String :=
+  let sorted := sortStr keys
+  let rec go : List String → Option (String × Nat) → List String → List String
+    | [], none, acc => acc.reverse
+    | [], some (k, n), acc => (s!"{k}={n}" :: acc).reverse
+    | x :: r, none, acc => go r (some (x, 1)) acc
+    | x :: r, some (k, n), acc => if x = k then go r (some (k, n + 1)) acc else go r (some (x, 1)) (s!"{k}={n}" :: acc)
+  sepOr (go sorted none []) ","
+
+def boolStr (b : Bool) : String := if b then "true" else "false"
+
+def pubKey (o : PubObs) : String :=
+  s!"pub\{handler_name={strHex o.handler},publisher_name={strHex o.publisher},success={strHex (boolStr o.success)}}"
+def subKey (o : SubObs) : String :=
+  s!"sub\{acked={strHex (if o.acked then "acked" else "nacked")},handler_name={strHex o.handler},subscriber_name={strHex o.subscriber}}"
+def hdlKey (o : HObs) : String :=
+  s!"hdl\{handler_name={strHex o.handler},success={strHex (boolStr o.success)}}"
+
+/-! ### request parsing -/
+
+inductive GenSpec | absent | fail | zero | for_ (d : Int) | until_ (off : Int) | odd (d : Int)
+  deriving Repr, BEq
+
+inductive LSpec | T (tag : String) | M | D (allow : Bool) (g : GenSpec)
+  deriving Repr, BEq
+
+def parseGen (s : String) : Option GenSpec :=
+  match s.toList with
+  | ['n'] => some .absent
+  | ['e'] => some .fail
+  | ['z'] => some .zero
+  | 'f' :: r => (String.ofList r).toInt?.map .for_
+  | 'u' :: r => (String.ofList r).toInt?.map .until_
+  | 'o' :: r => (String.ofList r).toInt?.map .odd
+  | _ => none
+
+def parseLayer (s : String) : Option LSpec :=
+  match s.toList with
+  | ['M'] => some .M
+  | 'T' :: r => if r.length = 1 then some (.T (String.ofList r)) else none
+  | 'D' :: a :: r =>
+    if a = '0' ∨ a = '1' then (parseGen (String.ofList r)).map (.D (a = '1')) else none
+  | _ => none
+
+def parseStack (s : String) : Option (List LSpec) := (splitOr s ",").mapM parseLayer
+
+def parseBits (s : String) : Option (List Bool) :=
+  if s = "-" then some [] else s.toList.mapM (fun c => if c = '0' then some false else if c = '1' then some true else none)
+
+def parseBit (s : String) : Option Bool := if s = "0" then some false else if s = "1" then some true else none
+
+/-- `-` absent, `x<hex>` raw, `d<ns>`, `t<sec>` -/
+def parseVal (s : String) : Option (Option Val) :=
+  match s.toList with
+  | ['-'] => some none
+  | 'x' :: r => (hexStr? (String.ofList r)).map (fun v => some (.raw v))
+  | 'd' :: r => (String.ofList r).toInt?.map (fun n => some (.dur n))
+  | 't' :: r => (String.ofList r).toInt?.map (fun n => some (.time n))
+  | _ => none
+
+def valTok : Option Val → String
+  | none => "-"
+  | some (.raw s) => "x" ++ strHex s
+  | some (.dur n) => s!"d{n}"
+  | some (.time n) => s!"t{n}"
+
+inductive CtxSpec | none | zero | for_ (d : Int) | until_ (off : Int)
+  deriving Repr, BEq
+
+def parseCtx (s : String) : Option CtxSpec :=
+  match s.toList with
+  | ['-'] => some .none
+  | ['z'] => some .zero
+  | 'f' :: r => (String.ofList r).toInt?.map .for_
+  | 'u' :: r => (String.ofList r).toInt?.map .until_
+  | _ => Option.none
+
+structure MSpec where
+  pfor : Option Val
+  puntil : Option Val
+  ctx : CtxSpec
+  deriving Repr
+
+def parseMsg (s : String) : Option MSpec :=
+  match s.splitOn "/" with
+  | [a, b, c] => do
+    let f ← parseVal a
+    let u ← parseVal b
+    let x ← parseCtx c
+    pure ⟨f, u, x⟩
+  | _ => none
+
+inductive OpSpec | close | pub (topic : Nat) (ids : List Nat)
+  deriving Repr
+
+def parseOp (s : String) : Option OpSpec :=
+  if s = "c" then some .close else
+  match s.toList with
+  | 'p' :: r =>
+    match (String.ofList r).splitOn ":" with
+    | [t, ids] => do
+      let t ← t.toNat?
+      let ids ← (if ids = "" then some [] else (ids.splitOn ".").mapM String.toNat?)
+      pure (.pub t ids)
+    | _ => none
+  | _ => none
+
+/-- recorded section: `key=value` tokens -/
+def recGet (rec : List String) (key : String) : Option String :=
+  rec.findSome? (fun t => match t.splitOn "=" with
+    | [k, v] => if k = key then some v else none
+    | _ => none)
+
+structure Win where
+  now : Int
+  t0 : Int
+  t1 : Int
+
+def recWin (rec : List String) (key : String) : Option Win := do
+  let v ← recGet rec key
+  match v.splitOn ":" with
+  | [a, b, c] => do
+    let a ← a.toInt?
+    let b ← b.toInt?
+    let c ← c.toInt?
+    pure ⟨a, b, c⟩
+  | _ => none
+
+def sec1 : Int := 1000000000
+
+/-- every recorded clock reading lies in the window it was measured in (RFC 3339 drops < 1 s; 1 s slack) -/
+def windowsOk (rec : List String) : Bool :=
+  rec.all (fun t => match t.splitOn "=" with
+    | [k, _] =>
+      if k.startsWith "m" || k.startsWith "g" then
+        match recWin rec k with
+        | some w => decide (w.t0 - 2 * sec1 ≤ w.now) && decide (w.now ≤ w.t1 + sec1)
+        | none => false
+      else true
+    | _ => false)
+
+def rawOf : Val → String
+  | .raw s => s
+  | _ => ""
+
+def tagFn (tag : String) : MD → MD := fun md => mset md "path" (.raw (rawOf (mget md "path") ++ tag))
+
+def nowOf (rec : List String) (key : String) : Int := ((recWin rec key).map (·.now)).getD 0
+
+def mkGen (rec : List String) (base : Int) (li : Nat) : GenSpec → Option (String → Msg → Option Delay)
+  | .absent => none
+  | .fail => some (fun _ _ => none)
+  | .zero => some (fun _ _ => some Delay.zero)
+  | .for_ d => some (fun _ m => some (Delay.for (nowOf rec s!"g{li}.{m.id}") d))
+  | .until_ off => some (fun _ m => some (Delay.until (nowOf rec s!"g{li}.{m.id}") (base + off)))
+  | .odd d => some (fun _ m => if m.id % 2 = 1 then none else some (Delay.for (nowOf rec s!"g{li}.{m.id}") d))
+
+def mkPubStack (rec : List String) (base : Int) : Nat → List LSpec → List PubLayer
+  | _, [] => []
+  | i, .T tag :: r => .transform (tagFn tag) :: mkPubStack rec base (i + 1) r
+  | i, .M :: r => .metrics :: mkPubStack rec base (i + 1) r
+  | i, .D a g :: r => .delay ⟨mkGen rec base i g, a⟩ :: mkPubStack rec base (i + 1) r
+
+def mkSubStack : List LSpec → Option (List SubLayer)
+  | [] => some []
+  | .T tag :: r => (mkSubStack r).map (fun x => .transform (tagFn tag) :: x)
+  | .M :: r => (mkSubStack r).map (fun x => .metrics :: x)
+  | .D _ _ :: _ => none
+
+def mkMsg (rec : List String) (base : Int) (id : Nat) (s : MSpec) : Msg :=
+  let md0 : MD := [("k", .raw "v")]
+  let md1 := match s.pfor with | some v => mset md0 forKey v | none => md0
+  let md2 := match s.puntil with | some v => mset md1 untilKey v | none => md1
+  let cd := match s.ctx with
+    | .none => none
+    | .zero => some Delay.zero
+    | .for_ d => some (Delay.for (nowOf rec s!"m{id}") d)
+    | .until_ off => some (Delay.until (nowOf rec s!"m{id}") (base + off))
+  { id := id, md := md2, ctxDelay := cd }
+
+def mfind : MD → String → Option Val
+  | [], _ => none
+  | (k, v) :: r, x => if k = x then some v else mfind r x
+
+def msgTok (m : Msg) : String :=
+  let others := m.md.filter (fun kv => kv.1 ≠ forKey ∧ kv.1 ≠ untilKey)
+  let rest := sortStr (others.map (fun kv => strHex kv.1 ++ "=" ++ strHex (rawOf kv.2)))
+  s!"{m.id}:{valTok (mfind m.md forKey)}:{valTok (mfind m.md untilKey)}:{sepOr rest "&"}"
+
+def errTok : Option Err → String
+  | none => "ok"
+  | some .noDelay => "e:nodelay"
+  | some .gen => "e:gen"
+  | some .inner => "e:inner"
+  | some .close => "e:close"
+  | some .sub => "e:sub"
+
+def callTok (c : InnerCall) : String :=
+  strHex c.topic ++ "[" ++ ",".intercalate (c.msgs.map msgTok) ++ "]"
+
+def writeBack (store : List Msg) (ms : List Msg) : List Msg :=
+  store.map (fun s => (ms.find? (fun m => m.id = s.id)).getD s)
+
+structure PubReq where
+  stack : List LSpec
+  script : List Bool
+  closeErr : Bool
+  msgs : List MSpec
+  ops : List OpSpec
+  rcd : List String
+  inner : String
+  base : Int
+
+def parsePubReq (f : List String) (rec : List String) : Option PubReq :=
+  match f with
+  | [st, sc, ce, ms, ops] => do
+    let st ← parseStack st
+    let sc ← parseBits sc
+    let ce ← parseBit ce
+    let ms ← (splitOr ms ";").mapM parseMsg
+    let ops ← (splitOr ops ";").mapM parseOp
+    let inner ← (recGet rec "inner").bind hexStr?
+    let base ← (recGet rec "base").bind String.toInt?
+    -- ids must exist
+    if ops.all (fun o => match o with | .close => true | .pub _ ids => ids.all (· < ms.length)) then
+      pure ⟨st, sc, ce, ms, ops, rec, inner, base⟩
+    else none
+  | _ => none
+
+def hasM (st : List LSpec) : Bool := st.any (· == .M)
+
+/-- the harness' probe sits above the outermost metrics decorator: it sees a call iff no delay layer above it refused.
+    The model computes it by running the layers above the first `M` only. -/
+def splitAtM : List PubLayer → List PubLayer × List PubLayer
+  | [] => ([], [])
+  | .metrics :: r => ([], .metrics :: r)
+  | l :: r => let (a, b) := splitAtM r; (l :: a, b)
+
+def modelPub (q : PubReq) : String := Id.run do
+  if !windowsOk q.rcd then return "clock-window"
+  let stack := mkPubStack q.rcd q.base 0 q.stack
+  let mut store : List Msg := (List.range q.msgs.length).zip q.msgs |>.map (fun (i, s) => mkMsg q.rcd q.base i s)
+  let mut w : PWorld := { script := q.script }
+  let mut res : List String := []
+  -- probe bookkeeping (mirrors the harness' own counting layer)
+  let (above, fromM) := splitAtM stack
+  let mut pOk := 0
+  let mut pErr := 0
+  let mut pEmpty := 0
+  let mut pRepub := 0
+  let mut seen : List Nat := []
+  for op in q.ops do
+    match op with
+    | .close =>
+      let (e, w') := closePub stack q.closeErr w
+      w := w'
+      res := res ++ [errTok e ++ "/0"]
+    | .pub t ids =>
+      let batch := ids.filterMap (fun id => store.find? (·.id = id))
+      let before := w.calls.length
+      let (e, ms', w') := publish q.inner stack s!"topic{t}" batch w
+      -- does the call reach the probe?  run the layers above it over a publisher that records the call
+      if hasM q.stack then
+        let (ea, _, wa) := publish q.inner above s!"topic{t}" batch { script := [] }
+        if ea.isNone ∧ wa.calls.length = 1 then
+          if e.isNone then pOk := pOk + 1 else pErr := pErr + 1
+          if ids.isEmpty then pEmpty := pEmpty + 1
+          else if seen.contains (ids.headD 0) then pRepub := pRepub + 1
+          seen := seen ++ ids
+      let _ := fromM
+      store := writeBack store ms'
+      w := w'
+      res := res ++ [s!"{errTok e}/{w.calls.length - before}"]
+  let probe := if hasM q.stack then s!"{pOk}/{pErr}/{pEmpty}/{pRepub}" else "-"
+  let gens := sepOr (w.gens.map toString) ","
+  return s!"{sepOr res ";"}|inner={sepOr (w.calls.map callTok) ";"}|gen={gens}|probe={probe}|metrics={countLines (w.obs.map pubKey)}|closes={w.closes}"
+
+/-! ### sub -/
+
+structure SubReq where
+  stack : List LSpec
+  subErr : Bool
+  closeErr : Bool
+  n : Nat
+  script : List Char
+  reads : Nat
+  inner : String
+
+def parseSubReq (f : List String) (rec : List String) : Option SubReq :=
+  match f with
+  | [st, se, ce, n, sc, rd] => do
+    let st ← parseStack st
+    let se ← parseBit se
+    let ce ← parseBit ce
+    let n ← n.toNat?
+    let sc := if sc = "-" then [] else sc.toList
+    let rd ← rd.toNat?
+    let inner ← (recGet rec "inner").bind hexStr?
+    if sc.all (fun c => c = 'a' ∨ c = 'n' ∨ c = 'u') ∧ sc.length = n ∧ rd ≤ n ∧ st.all (fun l => match l with | .D _ _ => false | _ => true) then
+      pure ⟨st, se, ce, n, sc, rd, inner⟩
+    else none
+  | _ => none
+
+def settleOf (script : List Char) (late : Bool) (id : Nat) : Settle :=
+  match script[id]? with
+  | some 'a' => .ack
+  | some 'n' => .nack
+  | some 'u' => if late then .ack else .none
+  | _ => .none
+
+def modelSub (q : SubReq) : String :=
+  match mkSubStack q.stack with
+  | none => "bad-op"
+  | some stack =>
+    let cl := closeSub stack q.closeErr 0
+    let closeTok := s!"{errTok cl.1}/{cl.2}"
+    if (subscribeErr stack q.subErr).isSome then s!"sub={errTok (subscribeErr stack q.subErr)}|recv=-|A=-|close={closeTok}|chan=-|B=-" else
+    let msgs : List Msg := (List.range q.n).map (fun i => { id := i, md := [("k", .raw "v")] })
+    let (got, ws) := subscribeRun q.inner stack msgs q.reads
+    let recv := got.map (fun m =>
+      let st := match settleOf q.script false m.id with | .ack => "a" | .nack => "n" | .none => "-"
+      s!"{m.id}:{strHex (rawOf (mget m.md "path"))}:s:{st}")
+    let a := countLines ((subCounts (settleOf q.script false) ws).map subKey)
+    let b := countLines ((subCounts (settleOf q.script true) ws).map subKey)
+    s!"sub=ok|recv={sepOr recv ","}|A={a}|close={closeTok}|chan=closed|B={b}"
+
+/-! ### router -/
+
+def parseOutcome (s : String) : Option Outcome :=
+  match s.toList with
+  | ['e'] => some .err
+  | ['p'] => some .panic
+  | 's' :: r => (String.ofList r).toNat?.map .ok
+  | _ => none
+
+structure RtReq where
+  kp : Nat
+  ks : Nat
+  script : List Bool
+  outs : List Outcome
+  pub : String
+  sub : String
+
+def parseRtReq (f : List String) (rec : List String) : Option RtReq :=
+  match f with
+  | [kp, ks, sc, os] => do
+    let kp ← kp.toNat?
+    let ks ← ks.toNat?
+    let sc ← parseBits sc
+    let os ← (splitOr os ",").mapM parseOutcome
+    let p ← (recGet rec "pub").bind hexStr?
+    let s ← (recGet rec "sub").bind hexStr?
+    pure ⟨kp, ks, sc, os, p, s⟩
+  | _ => none
+
+def modelRt (q : RtReq) : String :=
+  let w := routerRun "h" q.pub q.sub q.kp q.ks 0 q.outs { pw := { script := q.script } }
+  let settle := String.ofList (w.settles.map (fun s => match s with | .ack => 'a' | .nack => 'n' | .none => '-'))
+  -- result of each innermost Publish call: the script, as far as it was consumed
+  let calls := (List.range w.pw.calls.length).zip w.pw.calls |>.map (fun (i, c) =>
+    (if q.script.getD i false then "e:inner" else "ok") ++ s!":{c.msgs.length}")
+  let keys := w.hobs.map hdlKey ++ w.pw.obs.map pubKey ++ w.sobs.map subKey
+  s!"settle={if settle.isEmpty then "-" else settle}|pub={sepOr calls ";"}|inv={w.hobs.length}|metrics={countLines keys}|close=ok"
+
+/-! ### the property monitor (independent of the model functions) -/
+
+def section? (obs : List String) (name : String) : Option String :=
+  obs.findSome? (fun s => if s.startsWith (name ++ "=") then some (s.drop (name.length + 1)).toString else none)
+
+/-- metrics lines → (family, labels as `k=hexv`, count) -/
+def parseMetrics (s : String) : Option (List (String × List String × Nat)) :=
+  if s = "-" then some [] else
+  -- lines are separated by "," but label lists contain "," as well: split on "}" first
+  let parts := (s.splitOn "}=")
+  -- "fam{l1,l2" , "n,fam{l1,l2", "n"
+  let rec go : List String → String → List (String × List String × Nat) → Option (List (String × List String × Nat))
+    | [], _, _ => none
+    | [last], cur, acc =>
+      match cur.splitOn "{", last.toNat? with
+      | [fam, ls], some n => some (acc ++ [(fam, ls.splitOn ",", n)])
+      | _, _ => none
+    | nxt :: rest, cur, acc =>
+      match cur.splitOn "{", nxt.splitOn "," with
+      | [fam, ls], n :: more =>
+        match n.toNat? with
+        | some n => go rest (",".intercalate more) (acc ++ [(fam, ls.splitOn ",", n)])
+        | none => none
+      | _, _ => none
+  match parts with
+  | [] => none
+  | first :: rest => if rest.isEmpty then none else go rest first []
+
+def metricCount (ms : List (String × List String × Nat)) (fam : String) (label : String) : Nat :=
+  (ms.filter (fun m => m.1 = fam ∧ m.2.1.contains label)).foldl (fun a m => a + m.2.2) 0
+
+def famTotal (ms : List (String × List String × Nat)) (fam : String) : Nat :=
+  (ms.filter (fun m => m.1 = fam)).foldl (fun a m => a + m.2.2) 0
+
+def lblTrue := "success=" ++ strHex "true"
+def lblFalse := "success=" ++ strHex "false"
+def lblAcked := "acked=" ++ strHex "acked"
+def lblNacked := "acked=" ++ strHex "nacked"
+
+/-- delay layers of a stack, outermost first, with their index -/
+def delayLayers : Nat → List LSpec → List (Nat × Bool × GenSpec)
+  | _, [] => []
+  | i, .D a g :: r => (i, a, g) :: delayLayers (i + 1) r
+  | i, _ :: r => delayLayers (i + 1) r
+
+def genOk (g : GenSpec) (id : Nat) : Bool :=
+  match g with
+  | .absent => false | .fail => false | .zero => true | .for_ _ => true | .until_ _ => true
+  | .odd _ => id % 2 = 0
+
+def genPresent (g : GenSpec) : Bool := match g with | .absent => false | _ => true
+
+/-- `until = stamp time + for` up to the second RFC 3339 keeps and the time the call takes:
+    with the clock read somewhere in `[t0, t1]`, 1 s slack on both sides -/
+def agree (w : Win) (forNs untilSec : Int) : Bool :=
+  decide ((w.t0 + forNs) / sec1 - 1 ≤ untilSec) && decide (untilSec ≤ (w.t1 + forNs) / sec1 + 1)
+
+/-- does the observed stamp `(f, u)` match a delay built by For/Until/zero value?  "" = yes; "source" = the component
+    that the source fixes exactly (For: the duration, Until: the instant) is not there; "agree" = it is, but
+    delayed-for and delayed-until do not agree -/
+def stampMatches (kind : CtxSpec) (base : Int) (w : Option Win) (f u : Option Val) : String :=
+  match kind, f, u with
+  | .zero, some (.dur 0), some (.time s) => if s = zeroTimeSec then "" else "source"
+  | .for_ d, some (.dur x), some (.time s) =>
+    if x ≠ d then "source" else (match w with | some w => if agree w x s then "" else "agree" | none => "agree")
+  | .until_ off, some (.dur x), some (.time s) =>
+    if s ≠ (base + off) / sec1 then "source" else (match w with | some w => if agree w x s then "" else "agree" | none => "agree")
+  | _, _, _ => "source"
+
+def genAsCtx : GenSpec → CtxSpec
+  | .zero => .zero | .for_ d => .for_ d | .until_ o => .until_ o | .odd d => .for_ d | _ => .none
+
+def nonEmpty (v : Option Val) : Bool := match v with | none => false | some (.raw "") => false | some _ => true
+
+/-- parse `id:for:until:rest` -/
+def parseMsgTok (s : String) : Option (Nat × Option Val × Option Val × String) :=
+  match s.splitOn ":" with
+  | [i, f, u, r] => do
+    let i ← i.toNat?
+    let f ← parseVal f
+    let u ← parseVal u
+    pure (i, f, u, r)
+  | _ => none
+
+def parseCall (s : String) : Option (String × List (Nat × Option Val × Option Val × String)) :=
+  match s.splitOn "[" with
+  | [t, r] =>
+    if r.endsWith "]" then do
+      let body := (r.dropEnd 1).toString
+      let ms ← (if body.isEmpty then some [] else (body.splitOn ",").mapM parseMsgTok)
+      let t ← hexStr? t
+      pure (t, ms)
+    else none
+  | _ => none
+
+def monitorPub (q : PubReq) (obs : String) : String := Id.run do
+  let secs := obs.splitOn "|"
+  let some ress := secs.head? | return "bad-op"
+  let some innerS := section? secs "inner" | return "bad-op"
+  let some probeS := section? secs "probe" | return "bad-op"
+  let some metricsS := section? secs "metrics" | return "bad-op"
+  let some closesS := section? secs "closes" | return "bad-op"
+  let ress := splitOr ress ";"
+  if ress.length ≠ q.ops.length then return "violated:result_per_call"
+  let some calls := (splitOr innerS ";").mapM parseCall | return "bad-op"
+  let dls := delayLayers 0 q.stack
+  let tags := q.stack.filterMap (fun l => match l with | .T t => some t | _ => none)
+  let allIds := q.ops.flatMap (fun o => match o with | .pub _ ids => ids | .close => [])
+  let republish := allIds.any (fun i => (allIds.filter (· = i)).length > 1)
+  let mut stamped : List Nat := (List.range q.msgs.length).filter (fun i => nonEmpty ((q.msgs[i]?).bind (·.pfor)))
+  let mut ci := 0          -- next inner call
+  let mut nclose := 0
+  for (op, r) in q.ops.zip ress do
+    let (res, nc) ← match r.splitOn "/" with
+      | [a, b] => match b.toNat? with
+        | some n => pure (a, n)
+        | none => return "bad-op"
+      | _ => return "bad-op"
+    match op with
+    | .close =>
+      nclose := nclose + 1
+      if nc ≠ 0 then return "violated:close_publishes"
+      if res ≠ (if q.closeErr then "e:close" else "ok") then return "violated:close_result_passes"
+    | .pub t ids =>
+      -- which error, if any, must the delay layers raise (layers outermost first, messages in order)?
+      let mut want : Option String := none
+      for (_, allow, g) in dls do
+        if want.isNone then
+          for id in ids do
+            if want.isNone then
+              let hasCtx := match (q.msgs[id]?).map (·.ctx) with | some .none => false | some _ => true | none => false
+              if stamped.contains id then pure ()
+              else if hasCtx then stamped := id :: stamped
+              else if genPresent g then
+                if genOk g id then stamped := id :: stamped else want := some "e:gen"
+              else if allow then pure ()
+              else want := some "e:nodelay"
+      match want with
+      | some e =>
+        -- no delay available: nothing is published
+        if nc ≠ 0 then return "violated:published_without_delay"
+        if res ≠ e then return "violated:delay_error_expected"
+      | none =>
+        -- forwarded in exactly one call, same topic, same messages, same order; the inner result comes back
+        if nc ≠ 1 then return "violated:batch_one_call"
+        let some (topic, ms) := calls[ci]? | return "violated:batch_one_call"
+        if res ≠ (if q.script.getD ci false then "e:inner" else "ok") then return "violated:inner_result_passes"
+        ci := ci + 1
+        if topic ≠ s!"topic{t}" then return "violated:topic_passes"
+        if ms.map (·.1) ≠ ids then return "violated:messages_in_order"
+        for (id, f, u, rest) in ms do
+          let some spec := q.msgs[id]? | return "bad-op"
+          -- the delay stamp, by precedence
+          if nonEmpty spec.pfor then
+            if f ≠ spec.pfor ∨ u ≠ spec.puntil then return "violated:delay_metadata_untouched"
+          else if dls.isEmpty then
+            if f ≠ spec.pfor ∨ u ≠ spec.puntil then return "violated:no_delay_layer_untouched"
+          else if spec.ctx != .none then
+            match stampMatches spec.ctx q.base (recWin q.rcd s!"m{id}") f u with
+            | "" => pure ()
+            | "agree" => return "violated:delay_for_until_agree"
+            | _ => return "violated:delay_context_precedence"
+          else
+            match dls.find? (fun d => genPresent d.2.2) with
+            | some (li, _, g) =>
+              match stampMatches (genAsCtx g) q.base (recWin q.rcd s!"g{li}.{id}") f u with
+              | "" => pure ()
+              | "agree" => return "violated:delay_for_until_agree"
+              | _ => return "violated:delay_generator_precedence"
+            | none =>
+              if f ≠ spec.pfor ∨ u ≠ spec.puntil then return "violated:allow_no_delay_untouched"
+          -- transforms: once each, outermost first; other metadata untouched (checked when no object is published twice)
+          if !republish then
+            let path := String.join tags
+            let wantRest := sortStr (["6b=76"] ++ (if path.isEmpty then [] else [strHex "path" ++ "=" ++ strHex path]))
+            if rest ≠ sepOr wantRest "&" then return "violated:transform_once_in_order"
+  if ci ≠ calls.length then return "violated:extra_inner_call"
+  if closesS ≠ toString nclose then return "violated:close_once"
+  -- metrics: every Publish call that entered the (outermost) metrics decorator is counted once, success iff it returned nil
+  let some ms := parseMetrics metricsS | return "bad-op"
+  if hasM q.stack then
+    match probeS.splitOn "/" with
+    | [a, b, _, _] =>
+      let some a := a.toNat? | return "bad-op"
+      let some b := b.toNat? | return "bad-op"
+      if ms.any (fun m => m.1 ≠ "pub") then return "violated:metrics_foreign_series"
+      if metricCount ms "pub" lblTrue ≠ a ∨ metricCount ms "pub" lblFalse ≠ b ∨ famTotal ms "pub" ≠ a + b then
+        return "violated:metrics_publish_once"
+    | _ => return "bad-op"
+  else if !ms.isEmpty then return "violated:metrics_foreign_series"
+  return "ok"
+
+def monitorSub (q : SubReq) (obs : String) : String := Id.run do
+  let secs := obs.splitOn "|"
+  let some subS := section? secs "sub" | return "bad-op"
+  let some recvS := section? secs "recv" | return "bad-op"
+  let some aS := section? secs "A" | return "bad-op"
+  let some bS := section? secs "B" | return "bad-op"
+  let some closeS := section? secs "close" | return "bad-op"
+  let some chanS := section? secs "chan" | return "bad-op"
+  if secs.length ≠ 6 then return "violated:liveness"     -- a quiesce-timeout marker
+  if closeS ≠ (if q.closeErr then "e:close" else "ok") ++ "/1" then return "violated:close_once_result_passes"
+  if q.subErr then
+    if subS ≠ "e:sub" ∨ recvS ≠ "-" then return "violated:subscribe_error_passes"
+    if aS ≠ "-" ∨ bS ≠ "-" then return "violated:metrics_subscribe_once"
+    return "ok"
+  if subS ≠ "ok" then return "violated:subscribe_error_passes"
+  if chanS ≠ "closed" then return "violated:close_closes_output"
+  let recv := splitOr recvS ","
+  if recv.length ≠ q.reads then return "violated:every_message_once"
+  -- transforms act innermost first
+  let path := String.join (q.stack.filterMap (fun l => match l with | .T t => some t | _ => none)).reverse
+  let mut na := 0
+  let mut nn := 0
+  let mut nu := 0
+  for (i, r) in (List.range recv.length).zip recv do
+    match r.splitOn ":" with
+    | [id, p, same, st] =>
+      if id ≠ toString i then return "violated:messages_in_order"
+      if p ≠ strHex path then return "violated:transform_once_in_order"
+      if same ≠ "s" then return "violated:same_object"
+      let act := q.script.getD i 'u'
+      let want := if act = 'a' then "a" else if act = 'n' then "n" else "-"
+      if st ≠ want then return "violated:settle_reaches_inner"
+      if act = 'a' then na := na + 1 else if act = 'n' then nn := nn + 1 else nu := nu + 1
+    | _ => return "bad-op"
+  let some ma := parseMetrics aS | return "bad-op"
+  let some mb := parseMetrics bS | return "bad-op"
+  if q.stack.any (· == .M) then
+    if (ma ++ mb).any (fun m => m.1 ≠ "sub") then return "violated:metrics_foreign_series"
+    if metricCount ma "sub" lblAcked ≠ na ∨ metricCount ma "sub" lblNacked ≠ nn ∨ famTotal ma "sub" ≠ na + nn then
+      return "violated:metrics_subscribe_once"
+    if metricCount mb "sub" lblAcked ≠ na + nu ∨ metricCount mb "sub" lblNacked ≠ nn ∨ famTotal mb "sub" ≠ na + nn + nu then
+      return "violated:metrics_subscribe_once"
+  else if !(ma ++ mb).isEmpty then return "violated:metrics_foreign_series"
+  return "ok"
+
+def countChar (s : String) (c : Char) : Nat := (s.toList.filter (· = c)).length
+
+def monitorRt (q : RtReq) (obs : String) : String := Id.run do
+  let secs := obs.splitOn "|"
+  let some settleS := section? secs "settle" | return "bad-op"
+  let some pubS := section? secs "pub" | return "bad-op"
+  let some invS := section? secs "inv" | return "bad-op"
+  let some metricsS := section? secs "metrics" | return "bad-op"
+  let some closeS := section? secs "close" | return "bad-op"
+  if secs.length ≠ 5 ∨ closeS ≠ "ok" then return "violated:liveness"
+  let settle := if settleS = "-" then "" else settleS
+  if settle.length ≠ q.outs.length ∨ settle.toList.any (fun c => c ≠ 'a' ∧ c ≠ 'n') then return "violated:liveness"
+  let some inv := invS.toNat? | return "bad-op"
+  let some ms := parseMetrics metricsS | return "bad-op"
+  let calls := splitOr pubS ";"
+  let pOk := (calls.filter (·.startsWith "ok:")).length
+  let pErr := (calls.filter (·.startsWith "e:inner:")).length
+  -- handler middleware: one observation per invocation; success iff the handler returned nil without panicking
+  let hOk := (q.outs.filter (fun o => match o with | .ok _ => true | _ => false)).length
+  if inv ≠ q.outs.length then return "violated:handler_invocations"
+  if metricCount ms "hdl" lblTrue ≠ hOk ∨ metricCount ms "hdl" lblFalse ≠ inv - hOk ∨ famTotal ms "hdl" ≠ inv then
+    return "violated:metrics_handler_once"
+  if q.kp > 0 then
+    if metricCount ms "pub" lblTrue ≠ pOk ∨ metricCount ms "pub" lblFalse ≠ pErr ∨ famTotal ms "pub" ≠ calls.length then
+      return "violated:metrics_publish_once"
+  else if famTotal ms "pub" ≠ 0 then return "violated:metrics_foreign_series"
+  if q.ks > 0 then
+    if metricCount ms "sub" lblAcked ≠ countChar settle 'a' ∨ metricCount ms "sub" lblNacked ≠ countChar settle 'n'
+        ∨ famTotal ms "sub" ≠ settle.length then
+      return "violated:metrics_subscribe_once"
+  else if famTotal ms "sub" ≠ 0 then return "violated:metrics_foreign_series"
+  if ms.any (fun m => m.1 ≠ "pub" ∧ m.1 ≠ "sub" ∧ m.1 ≠ "hdl") then return "violated:metrics_foreign_series"
+  return "ok"
+
+def splitRec (toks : List String) : List String × List String :=
+  (toks.takeWhile (· ≠ "@"), (toks.dropWhile (· ≠ "@")).drop 1)
+
+def handle (line : String) : String :=
+  match line.splitOn " " with
+  | "M" :: kind :: rest =>
+    let (f, rec) := splitRec rest
+    match kind with
+    | "pub" => match parsePubReq f rec with | some q => modelPub q | none => "bad-op"
+    | "sub" => match parseSubReq f rec with | some q => modelSub q | none => "bad-op"
+    | "rt" => match parseRtReq f rec with | some q => modelRt q | none => "bad-op"
+    | _ => "bad-op"
+  | "P" :: kind :: rest =>
+    let req := rest.takeWhile (· ≠ "##")
+    match (rest.dropWhile (· ≠ "##")).drop 1 with
+    | [obs] =>
+      let (f, rec) := splitRec req
+      match kind with
+      | "pub" => match parsePubReq f rec with | some q => monitorPub q obs | none => "bad-op"
+      | "sub" => match parseSubReq f rec with | some q => monitorSub q obs | none => "bad-op"
+      | "rt" => match parseRtReq f rec with | some q => monitorRt q obs | none => "bad-op"
+      | _ => "bad-op"
+    | _ => "bad-op"
+  | _ => "bad-op"
+
+end C20
+
+def main : IO Unit := driverMain C20.handle
